@@ -245,6 +245,49 @@ def schedule_rules(rep, repo):
         rep.violate('C07.release', smod, init, 'free_set = set()', 'free_set must be re-created for every level before the per-op loop', node=P.alloc_level_loop)
 
 
+
+def gpu_threads_evaluated(rep, wmod, g):
+    """wave_eval_gpu - its own statements - evaluated (Engine M) for every thread (x, y) of a grid that over-covers a level: the thread must hand exactly
+    op row op_start + y and lane sim_start + x to the kernel when both are inside [op_start, op_stop) x [sim_start, sim_stop), and must touch nothing otherwise."""
+    from kvstatic import minieval
+    NS, stub = minieval.NS, minieval.stub
+    params = [a.arg for a in g.args.args]
+    bad = None
+    n = 0
+    for op_start, op_stop, sim_start, sim_stop in ((3, 5, 0, 2), (0, 1, 1, 3), (6, 7, 0, 1)):
+        ops = [[100 + r, r, 0, 0, 0, 0, -1, 0, 0] for r in range(7)]
+        for x in range(0, 5):
+            for y in range(0, 5):
+                n += 1
+                calls = []
+                thread = (x, y)
+
+                def kern(op, *rest):
+                    calls.append((op[0] - 100, rest[3] if len(rest) > 3 else None))
+                    return (0, 0)
+                env = {'cuda': NS(grid=stub(lambda nd: thread), atomic=NS(add=stub(lambda *a: None))), '_wave_eval_gpu': stub(kern)}
+                minieval.module_functions(wmod.tree, env)
+                vals = dict(ops=ops, op_start=op_start, op_stop=op_stop, cbuf=minieval.Rec(), c_locs=minieval.Rec(), c_caps=minieval.Rec(), abuf=minieval.Rec(), sim_start=sim_start,
+                            sim_stop=sim_stop, delays=minieval.Rec(), simctl_int=minieval.Rec(), seed=1)
+                if any(p_ not in vals for p_ in params):
+                    raise ModelError('wave_eval_gpu has parameters the rule does not know')
+                try:
+                    minieval.call_function(g, [vals[p_] for p_ in params], env)
+                    got = calls
+                except (IndexError, KeyError, TypeError) as e:
+                    got = type(e).__name__
+                want = [(op_start + y, sim_start + x)] if (op_start + y < op_stop and sim_start + x < sim_stop) else []
+                if got != want and bad is None:
+                    bad = (x, y, op_start, op_stop, sim_start, sim_stop, got, want)
+    ok = bad is None
+    rep.ob('C07.launch', f'wave_eval_gpu: thread (x, y) evaluates op op_start + y for lane sim_start + x iff both are inside the level / lane range ({n} threads evaluated)', ok, evals=n)
+    if not ok:
+        x, y, a, b_, c, d, got, want = bad
+        rep.violate('C07.launch', wmod, g, 'thread -> (sim, op) mapping and range guards', f'wave_eval_gpu: thread (x={x}, y={y}) of a launch over ops [{a}, {b_}) and lanes [{c}, {d}) '
+                    f'evaluates (op row, lane) = {got}, expected {want}: every op of the level must be evaluated exactly once per lane and nothing outside the level', node=g)
+    return True
+
+
 def launches(rep, repo):
     rep.rule('C07.launch', 'both c_prop loops launch levels in order over zip(level_starts, level_stops); CPU iterates range(op_start, op_stop); GPU threads with op_idx >= op_stop or sim >= sim_stop return; synchronize after the loop')
     wmod = repo.mod('wave_sim')
@@ -284,13 +327,18 @@ def launches(rep, repo):
     need = ['(x,y)=cuda.grid(2)', 'sim=sim_start+x', 'op_idx=op_start+y', 'ifsim>=sim_stop:return', 'ifop_idx>=op_stop:return', 'op=ops[op_idx]']
     alt = {'(x,y)=cuda.grid(2)': 'x,y=cuda.grid(2)'}
     pos = []
+    try:
+        if gpu_threads_evaluated(rep, wmod, g):
+            need = []           # decided by evaluating the kernel for every thread of an over-sized grid
+    except ModelError as e:
+        rep.note(f'C07.launch: wave_eval_gpu is outside the evaluated subset ({e}); the statement rules decide')
     for w in need:
         p = b.index(w) if w in b else (b.index(alt[w]) if alt.get(w) in b else -1)
         pos.append(p)
         rep.ob('C07.launch', f'wave_eval_gpu: {w}', p >= 0)
         if p < 0:
             rep.violate('C07.launch', wmod, g, w, f'wave_eval_gpu: `{w}` required (thread -> (sim, op) mapping and range guards)', node=g)
-    if all(p >= 0 for p in pos):
+    if need and all(p >= 0 for p in pos):
         ok = pos[3] < pos[5] and pos[4] < pos[5]
         rep.ob('C07.launch', 'range guards precede the op fetch', ok)
         if not ok:
